@@ -28,6 +28,11 @@ type c12Block struct {
 	TW     []kvPair   `json:"tw,omitempty"` // transient-store writes
 	Reopen bool       `json:"reopen,omitempty"`
 	Crash  bool       `json:"crash,omitempty"` // C13: enumerate every crash point of this block's commit
+	// C12: after this block, open a fresh store object at the previous version (when the policy retains it)
+	// and re-execute this block identically - what a node does when it restarts with the application one
+	// block behind. Deeper rollbacks are not generated: with pruning, iavl v0.12.4 refuses them
+	// ("Orphan expires before it comes alive"), and nothing in posmint performs one.
+	Rollback int `json:"rollback,omitempty"`
 }
 
 type c12Prog struct {
@@ -90,6 +95,8 @@ func genC12Common(t *rapid.T, tier string, crash bool) *c12Prog {
 		b.Reopen = rapid.IntRange(0, 5).Draw(t, "reopen") == 0
 		if crash {
 			b.Crash = rapid.IntRange(0, 3).Draw(t, "crash") == 0
+		} else if rapid.IntRange(0, 4).Draw(t, "hasrollback") == 0 {
+			b.Rollback = 1
 		}
 		return b
 	}), minBlocks, maxBlocks).Draw(t, "blocks")
@@ -243,6 +250,7 @@ func execC12C13(p *c12Prog, c *Case, crashMode bool) *Violation {
 	h := &c12History{snaps: map[int64][]flatKV{}, hashes: map[int64][]byte{}, retained: map[int64]bool{}}
 	c.Labelf("keepRecent=%d keepEvery=%d", p.KeepRecent, p.KeepEvery)
 	prunedSeen, retainedOld, reopenAfterDelete, deleted := false, false, false, false
+	replayed, replayedPruning := 0, false
 	crashInside2, crashAfterPrune := false, false
 
 	for bi := range p.Blocks {
@@ -328,6 +336,43 @@ func execC12C13(p *c12Prog, c *Case, crashMode bool) *Violation {
 				}
 			}
 		}
+
+		if !crashMode && b.Rollback > 0 {
+			target := height - 1
+			if target > 0 && h.retained[target] {
+				rs2 := s.open(db)
+				var err error
+				res := catch(func() { err = rs2.LoadVersion(target) })
+				if res.panicked || err != nil {
+					return violf("C12/retained-version-unreadable", "rollback at height %d: LoadVersion(%d) of a retained version failed: err=%v panic=%v", height, target, err, res.pv)
+				}
+				m2 := cloneModel(h.snaps[target])
+				for j := target; j < height; j++ {
+					s.apply(rs2, &p.Blocks[j], m2)
+					var cid2 stypes.CommitID
+					res := catch(func() { cid2 = rs2.Commit() })
+					if res.panicked {
+						return violf("C12/replay-commit-panic", "store reloaded at retained version %d (latest %d, keepRecent=%d keepEvery=%d): re-executing block %d identically, Commit panicked: %v",
+							target, height, p.KeepRecent, p.KeepEvery, j+1, res.pv)
+					}
+					if cid2.Version != j+1 || !bytes.Equal(cid2.Hash, h.hashes[j+1]) {
+						return violf("C12/replay-commit-id", "store reloaded at retained version %d: re-executing block %d identically returned (%d,%X); the first execution returned (%d,%X)",
+							target, j+1, cid2.Version, cid2.Hash, j+1, h.hashes[j+1])
+					}
+					replayed++
+					if p.KeepRecent < j && (p.KeepEvery == 0 || (j-p.KeepRecent)%p.KeepEvery != 0) {
+						replayedPruning = true // this commit's pruning rule names a version that is already gone
+					}
+				}
+				if msg, ok := s.content(rs2, model); !ok {
+					return violf("C12/content", "after rollback to %d and identical re-execution up to %d: %s", target, height, msg)
+				}
+				rs = rs2
+				if v := s.checkVersions(db, h, height, fmt.Sprintf("after rollback to %d and re-execution up to %d", target, height)); v != nil {
+					return v
+				}
+			}
+		}
 	}
 	if crashMode {
 		if crashInside2 {
@@ -349,6 +394,12 @@ func execC12C13(p *c12Prog, c *Case, crashMode bool) *Violation {
 	}
 	if reopenAfterDelete {
 		c.Label("reopen-after-delete")
+	}
+	if replayed > 0 {
+		c.Label("rollback-and-replay")
+	}
+	if replayedPruning {
+		c.Label("replayed-commit-prunes-an-already-released-version")
 	}
 	return nil
 }
